@@ -183,6 +183,25 @@ func (s *SelectStmt) ValidateFields(ctx *CheckCtx) error {
 			}
 		}
 	}
+	// Resolve the field names inside every field before any field is checked:
+	// a field used ahead of the field it is defined through (select b + 'x' as s,
+	// a + 'y' as b, key as a) would otherwise be typed from a half resolved definition
+	for _, f := range s.Fields {
+		f.Walk(func(e Expression) bool {
+			switch v := e.(type) {
+			case *BinaryOpExpr:
+				v.tryRewriteExpr(ctx)
+			case *FunctionCallExpr:
+				for i := range v.Args {
+					v.tryRewriteExpr(i, ctx)
+				}
+			case *FieldReferenceExpr:
+				// (the field it refers to is resolved in its own right)
+				return false
+			}
+			return true
+		})
+	}
 	for _, f := range s.Fields {
 		if err := s.validateField(f, ctx); err != nil {
 			return err
